@@ -104,7 +104,13 @@ type v03Conn struct {
 	inRead  bool
 	closed  bool
 	closeCh chan struct{}
+	// sync test: the harness can make the parked outbound socket deliver a packet or fail
+	inject    chan v03Reply
+	failRead  chan struct{}
+	sawClosed bool // the reply loop has come back to the closed socket (and exits)
 }
+
+var v03ErrSocketRead = errors.New("v03: outbound socket read error (ICMP unreachable)")
 
 func (c *v03Conn) ReadFrom(b []byte) (int, string, error) {
 	c.io.mu.Lock()
@@ -118,11 +124,21 @@ func (c *v03Conn) ReadFrom(b []byte) (int, string, error) {
 	c.inRead = true
 	c.io.cond.Broadcast()
 	c.io.mu.Unlock()
-	<-c.closeCh
-	return 0, "", v03ErrClosed
+	select {
+	case <-c.closeCh:
+		c.io.mu.Lock()
+		c.sawClosed = true
+		c.io.mu.Unlock()
+		return 0, "", v03ErrClosed
+	case <-c.failRead:
+		return 0, "", v03ErrSocketRead
+	case r := <-c.inject:
+		return copy(b, r.data), r.rAddr, nil
+	}
 }
 
 func (c *v03Conn) WriteTo(b []byte, addr string) (int, error) {
+	c.io.maybePark("write") // called by Feed without any implementation lock held
 	c.io.mu.Lock()
 	defer c.io.mu.Unlock()
 	c.written = append(c.written, append([]byte(nil), b...))
@@ -160,6 +176,40 @@ type v03IO struct {
 	recvWaiting bool
 	finish      bool
 	gaveUp      bool
+
+	// yield point owned by the harness: the next call of the armed kind ("check" = CheckUDP,
+	// "send" = SendMessage, "write" = outbound WriteTo; all made without implementation locks)
+	// parks until released, so that a concurrent close can be placed exactly there
+	parkKind string
+	parked   chan struct{}
+	release  chan struct{}
+	// one-shot: the next SendMessage for this session fails (connection-level error)
+	failSIDArmed bool
+	failSID      uint32
+	sendErrs     int
+}
+
+func (io *v03IO) arm(kind string) {
+	io.mu.Lock()
+	io.parkKind, io.parked, io.release = kind, make(chan struct{}), make(chan struct{})
+	io.mu.Unlock()
+}
+
+func (io *v03IO) maybePark(kind string) {
+	io.mu.Lock()
+	if io.parkKind != kind {
+		io.mu.Unlock()
+		return
+	}
+	io.parkKind = "" // one shot
+	parked, release := io.parked, io.release
+	io.mu.Unlock()
+	close(parked)
+	select {
+	case <-release:
+	case <-time.After(60 * time.Second):
+		vInconclusive("C03 server: a parked environment call (" + kind + ") was not released within 60 s")
+	}
 }
 
 func v03NewIO(limit int) *v03IO {
@@ -194,6 +244,7 @@ func (io *v03IO) ReceiveMessage() (*protocol.UDPMessage, error) {
 }
 
 func (io *v03IO) SendMessage(buf []byte, msg *protocol.UDPMessage) error {
+	io.maybePark("send")
 	n := msg.Serialize(buf)
 	io.mu.Lock()
 	defer io.mu.Unlock()
@@ -203,6 +254,12 @@ func (io *v03IO) SendMessage(buf []byte, msg *protocol.UDPMessage) error {
 		return nil
 	}
 	if io.failSendAt > 0 && io.sendCalls == io.failSendAt {
+		io.sendErrs++
+		return v03ErrSendFail
+	}
+	if io.failSIDArmed && msg.SessionID == io.failSID {
+		io.failSIDArmed = false
+		io.sendErrs++
 		return v03ErrSendFail
 	}
 	if n > io.limit {
@@ -232,7 +289,7 @@ func (io *v03IO) UDP(reqAddr string) (UDPConn, error) {
 	}
 	io.mu.Lock()
 	defer io.mu.Unlock()
-	c := &v03Conn{io: io, addr: reqAddr, closeCh: make(chan struct{})}
+	c := &v03Conn{io: io, addr: reqAddr, closeCh: make(chan struct{}), inject: make(chan v03Reply, 4), failRead: make(chan struct{})}
 	if k := len(io.conns); k < len(io.scripts) {
 		c.script = io.scripts[k]
 	}
@@ -241,6 +298,7 @@ func (io *v03IO) UDP(reqAddr string) (UDPConn, error) {
 }
 
 func (io *v03IO) CheckUDP(reqAddr string) error {
+	io.maybePark("check")
 	if strings.HasPrefix(reqAddr, "deny") {
 		return v03ErrDenied
 	}
@@ -264,6 +322,14 @@ type v03Case struct {
 	replies    []v03Reply   // sync test: replies pushed through sendMessageAutoFrag
 	scripts    [][]v03Reply // live test: per created outbound socket
 	shape      string
+	races      []v03Race // sync test: a close placed inside an environment call
+}
+
+// v03Race: while Feed / receiveLoop of session sid is parked inside `park`, the session is closed by `closeBy`.
+type v03Race struct {
+	sid     uint32
+	park    string // check | write | send
+	closeBy string // cleanup-all | idle-sweep | read-error | send-error
 }
 
 var v03Addrs = []string{"a:1", "a:1", "b:22", "deny:1", "rewrite:1", "dialfail:1", "hookfail:1", "[::1]:53", strings.Repeat("L", 300) + ":9"}
@@ -344,6 +410,28 @@ func v03GenCase(rt *rapid.T, live bool) *v03Case {
 		}
 		c.dgrams = append(c.dgrams, raw)
 	}
+	if !live {
+		if rapid.IntRange(0, 19).Draw(rt, "bigComplete") == 11 {
+			// a complete message of the maximum fragment count with full-size fragments (~300 KB reassembled)
+			cnt := rapid.SampledFrom([]int{255, 255, 128, 64}).Draw(rt, "bigCnt")
+			sid := uint32(rapid.IntRange(1, 3).Draw(rt, "bigSid"))
+			order := rapid.Permutation(v03Iota(cnt)).Draw(rt, "bigOrder")
+			for _, f := range order {
+				c.dgrams = append(c.dgrams, v03EncUDP(sid, 777, uint8(f), uint8(cnt), "a:1", v03Fill(1180, byte(f))))
+			}
+			c.shape += "+big-complete"
+		}
+		for k := rapid.IntRange(0, 2).Draw(rt, "nraces"); k > 0; k-- {
+			rc := v03Race{sid: uint32(rapid.SampledFrom([]int{0xACE00001, 0xACE00002, 1, 2}).Draw(rt, "raceSid")),
+				park: rapid.SampledFrom([]string{"check", "check", "write", "send"}).Draw(rt, "racePark")}
+			if rc.park == "send" {
+				rc.closeBy = rapid.SampledFrom([]string{"cleanup-all", "idle-sweep"}).Draw(rt, "raceCloseS")
+			} else {
+				rc.closeBy = rapid.SampledFrom([]string{"cleanup-all", "idle-sweep", "read-error", "send-error"}).Draw(rt, "raceClose")
+			}
+			c.races = append(c.races, rc)
+		}
+	}
 	if live {
 		for k := rapid.IntRange(0, 3).Draw(rt, "nscripts"); k > 0; k-- {
 			var s []v03Reply
@@ -360,9 +448,20 @@ func v03GenCase(rt *rapid.T, live bool) *v03Case {
 	return c
 }
 
+func v03Iota(n int) []int {
+	x := make([]int, n)
+	for i := range x {
+		x[i] = i
+	}
+	return x
+}
+
 func (c *v03Case) render() string {
 	var sb strings.Builder
 	fmt.Fprintf(&sb, "limit=%d failSendAt=%d shape=%s\n", c.limit, c.failSendAt, c.shape)
+	for i, rc := range c.races {
+		fmt.Fprintf(&sb, "  race #%d (after the datagrams and replies): session %#x parked in %s while closed by %s\n", i, rc.sid, rc.park, rc.closeBy)
+	}
 	for i, d := range c.dgrams {
 		if i >= 40 {
 			fmt.Fprintf(&sb, "  … %d more datagrams\n", len(c.dgrams)-i)
@@ -448,6 +547,14 @@ func v03RunSync(c *v03Case) (classes []string, fp string, verr error) {
 			fps.WriteByte('F')
 		}
 	}
+	for i, rc := range c.races {
+		cls, err := v03RunRace(m, io, rc, i, c)
+		if err != nil {
+			return nil, "", err
+		}
+		classes = append(classes, cls)
+		fps.WriteString("R" + cls)
+	}
 	// service continues
 	want1, want2 := []byte("probe-one"), v03Fill(90, 5)
 	pv, stack := v03Guard(func() {
@@ -506,6 +613,131 @@ func v03RunSync(c *v03Case) (classes []string, fp string, verr error) {
 	}
 	classes = append(classes, "shape:"+c.shape)
 	return classes, fps.String(), nil
+}
+
+// v03RunRace places a session close exactly inside an environment call made on behalf of that session.
+func v03RunRace(m *udpSessionManager, io *v03IO, rc v03Race, idx int, c *v03Case) (string, error) {
+	feedOne := func(addr string, data []byte) (any, string) {
+		return v03Guard(func() {
+			msg, perr := protocol.ParseUDPMessage(v03Tight(v03EncUDP(rc.sid, 0, 0, 1, addr, data)))
+			if perr != nil {
+				panic("race message does not parse: " + perr.Error())
+			}
+			m.feed(msg)
+		})
+	}
+	// make sure the session exists and is dialed
+	if pv, stack := feedOne("race-a:1", []byte("warm-up")); pv != nil {
+		return "", fmt.Errorf("udpSessionManager.feed panicked on the race warm-up message: %v\n%s%s", pv, c.render(), stack)
+	}
+	m.mutex.RLock()
+	entry := m.m[rc.sid]
+	m.mutex.RUnlock()
+	var cn *v03Conn
+	if entry != nil {
+		entry.connLock.Lock()
+		if entry.conn != nil && !entry.closed {
+			cn, _ = entry.conn.(*v03Conn)
+		}
+		usable := entry.OverrideAddr == ""
+		entry.connLock.Unlock()
+		if !usable {
+			cn = nil
+		}
+	}
+	if cn == nil {
+		return "race:skipped", nil
+	}
+	io.mu.Lock()
+	errsBefore := io.sendErrs
+	io.mu.Unlock()
+	io.arm(rc.park)
+	parked, release := io.parked, io.release
+	done := make(chan struct{})
+	var gpv any
+	var gstack string
+	switch rc.park {
+	case "check": // destination not yet in the session's decision cache -> CheckUDP
+		go func() { defer close(done); gpv, gstack = feedOne(fmt.Sprintf("race-b%d:1", idx), []byte("racing")) }()
+	case "write": // cached destination -> straight to WriteTo
+		go func() { defer close(done); gpv, gstack = feedOne("race-a:1", []byte("racing")) }()
+	default: // a reply arrives on the outbound socket -> receiveLoop -> SendMessage
+		close(done)
+		cn.inject <- v03Reply{data: []byte("pong"), rAddr: "9.9.9.9:53"}
+	}
+	select {
+	case <-parked:
+	case <-time.After(60 * time.Second):
+		vInconclusive(fmt.Sprintf("C03 server race: the environment call to park in was not reached within 60 s (%+v)", rc))
+	}
+	waitClosed := func() {
+		deadline := time.Now().Add(60 * time.Second)
+		for {
+			io.mu.Lock()
+			cl := cn.closed
+			io.mu.Unlock()
+			if cl {
+				return
+			}
+			if time.Now().After(deadline) {
+				vInconclusive(fmt.Sprintf("C03 server race: the session was not closed within 60 s after its socket failed (%+v) inRead=%v", rc, cn.inRead))
+			}
+			time.Sleep(20 * time.Microsecond)
+		}
+	}
+	cpv, cstack := v03Guard(func() {
+		switch rc.closeBy {
+		case "cleanup-all":
+			m.cleanup(false)
+		case "idle-sweep": // what idleCleanupLoop does once the idle timeout has elapsed
+			old := m.idleTimeout
+			m.idleTimeout = -1
+			m.cleanup(true)
+			m.idleTimeout = old
+		case "read-error":
+			close(cn.failRead)
+			waitClosed()
+		case "send-error":
+			io.mu.Lock()
+			io.failSIDArmed, io.failSID = true, rc.sid
+			io.mu.Unlock()
+			cn.inject <- v03Reply{data: []byte("x"), rAddr: "9.9.9.9:53"}
+			waitClosed()
+		}
+	})
+	close(release)
+	select {
+	case <-done:
+	case <-time.After(60 * time.Second):
+		vInconclusive("C03 server race: feed did not return within 60 s after being released")
+	}
+	if rc.park == "send" {
+		// the released reply loop must have finished its send before the history goes on
+		deadline := time.Now().Add(60 * time.Second)
+		for {
+			io.mu.Lock()
+			saw := cn.sawClosed || io.sendErrs > errsBefore // back at the closed socket, or left through a send error
+			io.mu.Unlock()
+			if saw {
+				break
+			}
+			if time.Now().After(deadline) {
+				vInconclusive("C03 server race: the reply loop did not come back to its closed socket within 60 s")
+			}
+			time.Sleep(20 * time.Microsecond)
+		}
+	}
+	io.mu.Lock()
+	io.failSIDArmed = false
+	io.mu.Unlock()
+	desc := fmt.Sprintf("race #%d: session %#x parked in %s, closed by %s", idx, rc.sid, rc.park, rc.closeBy)
+	if cpv != nil {
+		return "", fmt.Errorf("closing the session panicked (%s): %v\n%s%s", desc, cpv, c.render(), cstack)
+	}
+	if gpv != nil {
+		return "", fmt.Errorf("udpSessionManager.feed panicked after the session was closed under it (%s): %v\n%s%s", desc, gpv, c.render(), gstack)
+	}
+	return "race:" + rc.park + "/" + rc.closeBy, nil
 }
 
 // TestVerifC03_Regress_ServerReplyFragWrap: the repaired defect (fix c559d24) through the
